@@ -170,7 +170,7 @@ def sigma_max(J):
 # matrix generation
 # ------------------------------------------------------------------------------------------------
 CATEGORIES = ["generic", "rank_def", "conflict", "antiparallel", "dup_rows", "zero_row", "zero",
-              "stationary", "tall", "one_row", "one_col", "bad_scale", "nonconflict"]
+              "stationary", "tall", "one_row", "one_col", "bad_scale", "nonconflict", "dominated"]
 
 
 def gen_matrix(rng: pyrandom.Random, cat=None, mmax=5, nmax=6, scale_exp=None):
@@ -206,6 +206,12 @@ def gen_matrix(rng: pyrandom.Random, cat=None, mmax=5, nmax=6, scale_exp=None):
     elif cat == "stationary" and m >= 2:
         # v^T J = 0 with v > 0: last row = -(sum of the others)
         J[-1] = [-sum(J[i][j] for i in range(m - 1)) for j in range(n)]
+    elif cat == "dominated" and m >= 2:
+        # a short row (roughly) aligned with a longer one: <g0,g1> >= |g0|^2
+        k = rng.randint(2, 4)
+        J[1] = [k * x + (rng.randint(-1, 1) if rng.random() < 0.5 else 0) for x in J[0]]
+        if rng.random() < 0.5:
+            J[0], J[1] = J[1], J[0]
     elif cat == "nonconflict":
         J = [[abs(x) for x in r] for r in J]
     J = fmat(J)
@@ -588,3 +594,58 @@ def unjson(x):
     if isinstance(x, list):
         return [unjson(v) for v in x]
     return x
+
+
+def mgda_has_tie(J, epsilon, max_iters, rel=1e-9):
+    """exact-tie detection for MGDA (the 'no exact ties' proviso): replays Frank-Wolfe in float64
+    and reports whether some argmin is (numerically) not unique"""
+    G = np.array([[float(x) for x in r] for r in gram(J)], dtype=np.float64)
+    m = len(J)
+    alpha = np.ones(m) / m
+    for _ in range(min(int(max_iters), 200)):
+        ga = G @ alpha
+        srt = np.sort(ga)
+        if m >= 2 and (srt[1] - srt[0]) <= rel * max(np.max(np.abs(ga)), 1e-300):
+            return True
+        t = int(np.argmin(ga))
+        e = np.zeros(m)
+        e[t] = 1.0
+        a, b, c = alpha @ (G @ e), alpha @ ga, e @ (G @ e)
+        if c <= a:
+            gamma = 1.0
+        elif b <= a:
+            gamma = 0.0
+        else:
+            gamma = (b - a) / (b + c - 2 * a)
+        alpha = (1 - gamma) * alpha + gamma * e
+        if gamma < float(epsilon):
+            break
+    return False
+
+
+def minnorm_exact(G):
+    """min alpha^T G alpha over the simplex, exactly (support enumeration); returns the value"""
+    m = len(G)
+    best = None
+    for r in range(1, m + 1):
+        for S in itertools.combinations(range(m), r):
+            # [G_SS -1; 1^T 0] [a; lam] = [0; 1]
+            K = [[G[i][j] for j in S] + [F(-1)] for i in S] + [[F(1)] * r + [F(0)]]
+            sol = solve_exact(K, [F(0)] * r + [F(1)])
+            if sol is None:
+                continue
+            a, lam = sol[:r], sol[r]
+            if any(x < 0 for x in a):
+                continue
+            alpha = [F(0)] * m
+            for i, x in zip(S, a):
+                alpha[i] = x
+            Ga = matvec(G, alpha)
+            if all(Ga[j] >= lam for j in range(m)):
+                return lam          # = alpha^T G alpha
+            if best is None or lam < best:
+                pass
+    # fallback: vertices
+    return min(G[i][i] for i in range(m))
+
+
